@@ -1,9 +1,13 @@
 /-
-Driver for E2 (grammar IR / derivation checker).
+Driver for E2 (grammar IR / derivation checker).  Runs the *normalising* derivative matcher
+`matchFast` / `validFast` (Model/IRFast.lean), proved equal to `matchIR` / equivalent to `Valid` in
+Proofs/IRFast.lean (`matchFast_iff`, `validFast_iff`, `matchFast_eq_matchIR`): the raw derivatives
+of Model/IR.lean double in size per token on nested repetitions.
   {"op":"valid","grammar":G,"oracle":O,"tree":T}  → {"valid":bool,"bad":path|null}
   {"op":"match","node":N,"oracle":O,"toks":[tok…]} → {"match":bool}
 -/
 import Driver.IRJson
+import Model.IRFast
 open Lean FV FV.Drv
 
 def handle (j : Json) : Except String Json := do
@@ -13,15 +17,15 @@ def handle (j : Json) : Except String Json := do
     let G ← grammarOf (← j.getObjVal? "grammar")
     let R ← oracleOf (← j.getObjVal? "oracle")
     let t ← treeOf (← j.getObjVal? "tree")
-    let bad := match firstBad G R t with
+    let bad := match firstBadFast G R t with
       | none => Json.null
       | some p => jNats p
-    return Json.mkObj [("valid", Json.bool (validB G R t)), ("bad", bad)]
+    return Json.mkObj [("valid", Json.bool (validFast G R t)), ("bad", bad)]
   | "match" =>
     let n ← nodeOf (← j.getObjVal? "node")
     let R ← oracleOf (← j.getObjVal? "oracle")
     let ts ← (← (← j.getObjVal? "toks").getArr?).toList.mapM tokOfJson
-    return Json.mkObj [("match", Json.bool (matchIR R n ts))]
+    return Json.mkObj [("match", Json.bool (matchFast R n ts))]
   | _ => throw s!"unknown op {op}"
 
 def main : IO Unit := run handle
